@@ -183,6 +183,11 @@ func genMediaSwitch(ctx *Ctx) error {
 	return os.Rename(tmp, filepath.Join(ctx.GenDir, "MediaSwitch.lean"))
 }
 
-func genC13(ctx *Ctx) error { return genMediaSwitch(ctx) }
+func genC13(ctx *Ctx) error {
+	if err := genBodyRules(ctx); err != nil {
+		return err
+	}
+	return genMediaSwitch(ctx)
+}
 
 func init() { register("gen-c13", genC13) }
